@@ -33,6 +33,22 @@ def gen_constants(rng, amplified=True, npts=None):
         kw['n'] = rng.choice([-2, -1, 1, 2, 3])
         kw['kN0'] = rng.choice([0.055, 0.2])
         kw['kTi'] = rng.choice([0.27586, 0.1])
+        # nothing about the domain or the profiles is special: vary what the shipped set-ups keep fixed
+        if rng.random() < 0.5:
+            kw['rMin'] = rng.choice([0.1, 0.5, 1.5])
+            kw['rMax'] = rng.choice([14.5, 9.0])
+        if rng.random() < 0.4:
+            zmin = rng.choice([-3.0, 10.0])
+            kw['zMin'] = zmin
+            kw['zMax'] = zmin + R0 * 2 * math.pi
+        if rng.random() < 0.4:
+            kw['B0'] = rng.choice([0.7, 2.0])
+        if rng.random() < 0.4:
+            kw['CTi'] = rng.choice([1.5, 0.8])
+            kw['CTe'] = rng.choice([1.0, 0.8])
+            kw['kTe'] = rng.choice([0.27586, 0.2])
+            kw['deltaRTi'] = rng.choice([1.45, 2.0])
+            kw['deltaRTe'] = rng.choice([1.45, 1.0])
     else:
         kw['iotaVal'] = rng.choice([0.0, 0.8])
         kw['m'] = rng.randint(1, 4)
